@@ -223,6 +223,26 @@ def _chunk(seed, lo, hi, extra):
                         fail("C06/result-depends-on-earlier-diffs-in-process", left_ns=ser(a), right_ns=ser(b))
                 except Exception as e:  # noqa
                     pass
+                # (d0) options of one call must not leak into later calls: an earlier diff that ignores a unique attribute,
+                # then a default diff of siblings whose xml:id values are swapped (xml:id is unique by default: nodes with
+                # different values are never paired, so no action may change an xml:id)
+                XID = "{http://www.w3.org/XML/1998/namespace}id"
+                sl = '<r><s xml:id="a">one one</s><s xml:id="b">two two</s></r>'
+                sr = '<r><s xml:id="b">one one</s><s xml:id="a">two two</s></r>'
+                try:
+                    before = main.diff_texts(sl, sr)
+                    shared = ["id"]
+                    main.diff_texts(sl, sr, diff_options={"ignored_attrs": [XID]})
+                    main.diff_texts('<r><s id="1"/></r>', '<r><s id="2"/></r>', diff_options={"uniqueattrs": shared, "ignored_attrs": ["id"]})
+                    after = main.diff_texts(sl, sr)
+                    if shared != ["id"]:
+                        fail("C06/diff-modified-the-uniqueattrs-list-it-was-given", got=repr(shared))
+                    if after != before:
+                        fail("C06/result-depends-on-options-of-earlier-calls", before=repr(before)[:400], after=repr(after)[:400])
+                    if any(type(a_).__name__ in ("UpdateAttrib", "InsertAttrib", "DeleteAttrib") and a_.name == XID for a_ in after):
+                        fail("C06/default-unique-attribute-lost-after-earlier-call", script=repr(after)[:400])
+                except Exception as e:  # noqa
+                    fail(f"C06/options-history-raises/{real.exc_sig(e)}")
                 # (d') one XMLFormatter across namespaced pairs: an earlier script with InsertNamespace (the right root binds
                 # a prefix the left one lacks), then a pair that uses that URI only below the root
                 rr = core.rng_for(seed, "U12nsfmt", idx)
